@@ -249,7 +249,7 @@ def make_data_dict(filename):
     """
     if os.path.splitext(filename)[1] == '.gz':
         import gzip
-        f = gzip.open(filename)
+        f = gzip.open(filename, 'rt')
     elif os.path.splitext(filename)[1] == '.zip':
         import zipfile
         archive = zipfile.ZipFile(filename)
@@ -257,7 +257,8 @@ def make_data_dict(filename):
         if len(namelist) != 1:
             raise ValueError('Must be only a single data file in zip '
                              'archive: %s' % filename)
-        f = archive.open(namelist[0])
+        import io
+        f = io.TextIOWrapper(archive.open(namelist[0]))
     else:
         f = open(filename)
 
